@@ -119,6 +119,13 @@ func (c06) Gen(env *Env, seed uint64, tier string, i int) *Case {
 		}
 		c.Targets = t2
 	}
+	if r.Chance(1, 4) && len(c.Files) > 0 {
+		// the same file reached twice, through differently spelled arguments
+		f := c.Files[r.Intn(len(c.Files))]
+		rel := strings.TrimPrefix(f.Path, ProjDir+"/")
+		c.Targets = append(c.Targets, r.Pick([]string{f.Path, rel, "./" + rel, "."}))
+		c.Extra["dup"] = "1"
+	}
 	if r.Chance(1, 3) {
 		c.Spec.Knobs.StdinChunk = -16
 		c.Spec.Knobs.FileChunk = -64
@@ -213,6 +220,16 @@ func (c06) Eval(env *Env, c *Case) []Violation {
 				}
 			} else {
 				stdoutPos += idx + len(before.Data)
+			}
+			same := 0
+			for _, g := range c.Files {
+				if bytes.Contains(c.NodeData(g.Path), before.Data) {
+					same++
+				}
+			}
+			if len(before.Data) > 40 && bytes.Count(r.Stdout, before.Data) > same {
+				env.Probe("echo-count-checked")
+				add("print-echo", "twice", fmt.Sprintf("--print-only echoed unmatched file %s more than once (args %v)", f.Path, c.Spec.Args))
 			}
 		}
 		// (4) no diff for it
